@@ -53,6 +53,16 @@ def rule_try(ctx, R, F):
             inside = in_try(x, par) is t
             what = ('new ' + strip_targs(x.get('aty', ''))) if x['k'] == 'New' else x.get('name')
             R.check(inside, '%s: %s@%s' % (name, what, x.get('ln')), loc(x, f), expected='inside the try block', found='inside' if inside else 'OUTSIDE try')
+        # nothing else that can raise (a throwing std:: member such as the copy of a std::string, a call into library code that throws) may sit outside the
+        # try block either: the functions are extern "C" and the object under construction would be lost
+        seen_ids = set(id(x) for x in risky)
+        for x, why in may_throw(F, f['body'], ()):
+            if id(x) in seen_ids or in_try(x, par) is t:
+                continue
+            inh = any(z is x for h_ in t['h'] for z in walk(h_['b']))
+            if inh:
+                continue        # handlers are examined below
+            R.check(False, '%s: %s@%s' % (name, show(x)[:50], x.get('ln')), loc(x, f), expected='inside the try block', found='%s OUTSIDE the try block' % why)
         # handler
         hs = t['h']
         okh = len(hs) >= 1 and any(h.get('tyq') == 'std::exception' or h['ty'] == '...' for h in hs)
@@ -397,7 +407,8 @@ def rule_null_pair(ctx, R, F):
 # ---------------------------------------------------------------------------------------------
 NOTHROW_C = re.compile(r'^(mem(cpy|set|move|cmp)|__builtin_.*|str(len|cmp|ncmp)|abs|std::(min|max|move|forward|swap|addressof|memcpy|memset))$')
 THROWING_STD = ('reserve', 'resize', 'push_back', 'emplace_back', 'assign', 'insert', 'emplace', 'append', 'at', 'operator=', 'operator+=', 'shrink_to_fit', 'vector', 'basic_string', 'string', 'function')
-NOTHROW_STD = ('size', 'data', 'begin', 'end', 'cbegin', 'cend', 'empty', 'clear', 'operator[]', 'front', 'back', 'capacity', 'c_str', 'length', 'get', 'swap', 'pop_back')
+NOTHROW_STD = ('size', 'data', 'begin', 'end', 'cbegin', 'cend', 'empty', 'clear', 'operator[]', 'front', 'back', 'capacity', 'c_str', 'length', 'get', 'swap', 'pop_back', 'max', 'min', 'move', 'forward', 'operator==', 'operator!=', 'compare',
+               'memory_order', 'load', 'store', 'exchange', 'fetch_add', 'fetch_sub', 'what')
 
 
 def may_throw(F, node, acquired, depth=0, seen=None):
